@@ -65,3 +65,86 @@ theorem mem_of_mem_dropLast {α} {a : α} : ∀ {l : List α}, a ∈ l.dropLast 
     · exact List.mem_cons_of_mem _ (mem_of_mem_dropLast h)
 
 end TW
+
+namespace TW
+
+theorem blen_eq_zero {t : Text} (h : blen t = 0) : t = [] := by
+  cases t with
+  | nil => rfl
+  | cons c cs => have := utf8Size_pos c; simp at h; omega
+
+theorem splitBytes?_some {t : Text} {n : Nat} {a b : Text} (h : splitBytes? t n = some (a, b)) :
+    t = a ++ b ∧ blen a = n := by
+  induction t generalizing n a b with
+  | nil =>
+    cases n with
+    | zero => simp [splitBytes?] at h; simp [h]
+    | succ n => simp [splitBytes?] at h
+  | cons c cs ih =>
+    cases n with
+    | zero => simp [splitBytes?] at h; obtain ⟨rfl, rfl⟩ := h; simp
+    | succ n =>
+      simp only [splitBytes?] at h
+      split at h
+      · next hle =>
+        split at h
+        · next a' b' hr =>
+          simp only [Option.some.injEq, Prod.mk.injEq] at h
+          obtain ⟨rfl, rfl⟩ := h
+          obtain ⟨h1, h2⟩ := ih hr
+          refine ⟨by simp [h1], by simp only [blen_cons, h2]; omega⟩
+        · simp at h
+      · simp at h
+
+theorem splitBytes?_append (a b : Text) : splitBytes? (a ++ b) (blen a) = some (a, b) := by
+  induction a with
+  | nil => cases b <;> simp [splitBytes?]
+  | cons c cs ih =>
+    have hp := utf8Size_pos c
+    simp only [List.cons_append, blen_cons]
+    obtain ⟨k, hk⟩ : ∃ k, c.utf8Size + blen cs = k + 1 := ⟨c.utf8Size + blen cs - 1, by omega⟩
+    rw [hk]
+    simp only [splitBytes?]
+    have : c.utf8Size ≤ k + 1 := by omega
+    simp only [this, if_true]
+    have : k + 1 - c.utf8Size = blen cs := by omega
+    rw [this, ih]
+
+/-- a byte offset determines the split -/
+theorem split_unique {a b a' b' : Text} (h : a ++ b = a' ++ b') (hl : blen a = blen a') : a = a' ∧ b = b' := by
+  have h1 := splitBytes?_append a b
+  rw [h, hl, splitBytes?_append] at h1
+  simp only [Option.some.injEq, Prod.mk.injEq] at h1
+  exact ⟨h1.1.symm, h1.2.symm⟩
+
+theorem slice?_some {t : Text} {a b : Nat} {m : Text} (h : slice? t a b = some m) :
+    ∃ l r, t = l ++ m ++ r ∧ blen l = a ∧ blen (l ++ m) = b := by
+  unfold slice? at h
+  split at h
+  · next hab =>
+    split at h
+    · next l r hs =>
+      split at h
+      · next m' r' hs2 =>
+        simp only [Option.some.injEq] at h; subst h
+        obtain ⟨h1, h2⟩ := splitBytes?_some hs
+        obtain ⟨h3, h4⟩ := splitBytes?_some hs2
+        exact ⟨l, r', by rw [h1, h3]; simp, h2, by simp only [blen_append, h2, h4]; omega⟩
+      · simp at h
+    · simp at h
+  · simp at h
+
+theorem slice?_append (l m r : Text) : slice? (l ++ m ++ r) (blen l) (blen (l ++ m)) = some m := by
+  unfold slice?
+  have h1 : blen l ≤ blen (l ++ m) := by simp
+  simp only [h1, if_true, List.append_assoc, splitBytes?_append]
+  have : blen (l ++ m) - blen l = blen m := by simp
+  rw [this, splitBytes?_append]
+
+theorem sliceFrom?_append (l r : Text) : sliceFrom? (l ++ r) (blen l) = some r := by
+  simp [sliceFrom?, splitBytes?_append]
+
+theorem sliceTo?_append (l r : Text) : sliceTo? (l ++ r) (blen l) = some l := by
+  simp [sliceTo?, splitBytes?_append]
+
+end TW
